@@ -7,11 +7,13 @@ WR-1/WR-2 on the DFT-domain shape functions (vec_znx_dft, svp, vmp, convolution 
 WR-4   vector-matrix products with a limb offset zero-fill from exactly one stride after the last written limb
 WR-7   block extraction for the convolution: rows extracted + rows zero-filled = rows of the destination block
 MS-8   block-extraction kernels read a number of rows bounded by the limbs of the source view
+WR-9   in-place limb-wise loops (`res[j + r] op= a[j + s]`) run over the whole overlap of the two limb windows (no limb the result can hold is dropped, none is indexed past)
+VMP-1  the single-column product kernel is applied to a prepared matrix only when the processed column is stored unpaired (ncols == truncated column count on the path)
 BK-9   same-name shape functions of the FFT64 and NTT120 families bound their work by the same quantities
 BK-8   the AVX kernels of wrapping integer products use a full-width multiply
 """
 from . import facts
-from .c11 import wr1, wr2, wr2b, wr2c, wr4, wr7
+from .c11 import wr1, wr2, wr2b, wr2c, wr4, wr7, wr9
 
 C07_FILES = ("reference/fft64/vec_znx_dft.rs", "reference/fft64/svp.rs", "reference/fft64/vmp.rs", "reference/fft64/convolution.rs",
              "reference/ntt120/vec_znx_dft.rs", "reference/ntt120/svp.rs", "reference/ntt120/vmp.rs", "reference/ntt120/convolution.rs")
@@ -19,6 +21,93 @@ C07_FILES = ("reference/fft64/vec_znx_dft.rs", "reference/fft64/svp.rs", "refere
 
 def in_c07(f):
     return any(f.file.endswith(x) for x in C07_FILES)
+
+
+def vmp1(p, res):
+    """prepared matrices store their columns in pairs; a trailing column is stored unpaired only when it is the last of an odd number of columns.  A single-column product
+    kernel reads rows at the unpaired stride, so in every apply core it may be applied only when the truncated column count equals the stored column count:
+    on every path that reaches a `*1col*` kernel call, the path's comparisons imply  ncols == min(ncols, ...)  (the truncated count the column loops run to)."""
+    from . import sc, pwl
+    from .cfg import CFG, Flow
+    from .sym import Sym, Poly
+    from .c01 import pwl_atoms
+    n = 0
+    for f in sorted(p.lib_fns(), key=lambda x: x.uid):
+        if f.kind == "Closure" or not f.blocks or not f.uid.startswith(("poulpy_cpu_ref::reference", "poulpy_cpu_avx")):
+            continue
+        pn = {v: k for k, v in f.param_names().items()}
+        if "ncols" not in pn:
+            continue
+        ones = [(bi, t) for bi, t in f.calls() if "1col" in (f.callee_def(t) or {}).get("n", "")]
+        if not ones:
+            continue
+        n += 1
+        g = CFG(f)
+        NC = Poly.atom(("p", pn["ncols"], ()))
+        sym0 = Sym(f, Flow(f))
+        # the truncated column count: a min(..) over the stored count
+        cms = set()
+        for blk in f.blocks:
+            t = blk["t"]
+            if t and t["k"] == "Call" and (f.callee_def(t) or {}).get("n") == "min" and len(t["a"]) == 2 and NC.key() in (sym0.operand(t["a"][0]).key(), sym0.operand(t["a"][1]).key()):
+                cms.add(sym0.local(t["d"][0]).key() if len(t["d"]) == 1 else None)
+        cms.discard(None)
+        if len(cms) != 1:
+            res.undec("VMP-1", "%s: the truncated column count min(ncols, ..) is not unique" % f.pretty)
+            continue
+        CM = Poly(dict(list(cms)[0]))
+        paths = sc.returning_paths(f, g, cap=600, unroll=1) or []
+        bad = None
+        und = None
+        checked = 0
+        seen = set()
+        for path in paths:
+            pos = set(path)
+            on = [(bi, t) for bi, t in ones if bi in pos]
+            if not on:
+                continue
+            sym = Sym(f, sc.PathFlow(f, path))
+            conds = [sc.norm_cond(k, t) for k, t in sc.path_conditions(f, g, path, sym)]
+            cmps = [c for c in conds if c[0] == "cmp"]
+            sig = tuple(sorted(repr(c) for c in cmps))
+            if sig in seen:
+                continue
+            seen.add(sig)
+            checked += 1
+            fail = None
+            pts = 0
+            for val in pwl.valuations(count=1500, hi=9):
+                ev = pwl.Eval(p, val)
+                ev.syms[f.uid] = sym
+                try:
+                    ok = True
+                    for c in cmps:
+                        x, y = ev.key(c[2]), ev.key(c[3])
+                        if not {"Eq": x == y, "Ne": x != y, "Lt": x < y, "Le": x <= y, "Gt": x > y, "Ge": x >= y}[c[1]]:
+                            ok = False
+                            break
+                    if not ok:
+                        continue
+                    a, b = ev.poly(NC), ev.poly(CM)
+                except (pwl.ErrPath, ZeroDivisionError):
+                    continue
+                pts += 1
+                if a != b and fail is None:
+                    fail = {"ncols": a, "col_max": b}
+            if fail:
+                # an uninterpreted condition that relates the two counts could still make the path infeasible
+                other = [c for c in conds if c[0] != "cmp"]
+                bad = bad or (fail, on[0][1])
+        if bad:
+            res.bad("VMP-1", f.pretty, "unpaired-kernel-on-paired-column",
+                    "%s applies the single-column kernel `%s` on a path where the stored column count (%d) differs from the truncated count (%d): the last processed column is then the "
+                    "first half of a stored pair and its rows lie at the paired stride" % (f.pretty, (f.callee_def(bad[1]) or {}).get("n"), bad[0]["ncols"], bad[0]["col_max"]),
+                    site=f.where(bad[1]["l"]), detail=bad[0])
+        elif checked:
+            res.ok("VMP-1", {"fn": f.pretty, "paths": checked, "law": "single-column kernel only when ncols == min(ncols, res_size + limb_offset)"})
+        else:
+            res.undec("VMP-1", "%s: no path reaches the single-column kernel" % f.pretty)
+    return n
 
 
 def run(res, tier):
@@ -34,6 +123,8 @@ def run(res, tier):
     res.rule("WR-7", "block extraction into an output: rows extracted + rows zero-filled = rows of the destination block")
     res.rule("MS-8", "block-extraction kernels read a number of rows bounded by the limbs of the source view")
     res.rule("BK-9", "same-name shape functions of reference::fft64 and reference::ntt120 compare a parameter against bounds that depend on the same parameters")
+    res.rule("WR-9", "in-place limb-wise loops run over the whole overlap of the two limb windows: trip count == max(min(size(res) - r, size(a) - s), 0)")
+    res.rule("VMP-1", "vector-matrix apply cores: the single-column kernel is reached only on paths whose comparisons imply ncols == truncated column count (the column is stored unpaired)")
     res.rule("BK-8", "where the reference kernel uses i64::wrapping_mul the AVX kernel does not multiply with _mm256_mul_epi32")
     res.assumptions = ["kernels compute the transform / product on the limbs they are given (floating-point and modular arithmetic not decided)"]
     cfgs = ["avx-dev"] if tier == "quick" else ["avx-dev", "ref-dev"]
@@ -55,6 +146,10 @@ def run(res, tier):
         from .c17 import ms8
         n8 = ms8(p, res)
         res.floor("MS-8", "block-extraction kernels", n8, 4)
+        n9w = wr9(p, res, restrict=in_c07)
+        res.floor("WR-9", "in-place limb-wise loops of the C07 files", n9w, 6)
+        nv = vmp1(p, res)
+        res.floor("VMP-1", "vmp apply cores", nv, 2)
         from .c10 import bk9, bk8
         n9 = bk9(p, res)
         res.floor("BK-9", "family shape functions with parameter bounds", n9, 1)
